@@ -19,9 +19,15 @@ import (
 	"testing/synctest"
 	"time"
 
+	"github.com/jensneuse/abstractlogger"
+
+	"github.com/wundergraph/graphql-go-tools/execution/engine"
+	"github.com/wundergraph/graphql-go-tools/execution/graphql"
 	"github.com/wundergraph/graphql-go-tools/execution/subscription"
 	"github.com/wundergraph/graphql-go-tools/execution/subscription/websocket"
 	"github.com/wundergraph/graphql-go-tools/v2/pkg/ast"
+	"github.com/wundergraph/graphql-go-tools/v2/pkg/engine/datasource/staticdatasource"
+	"github.com/wundergraph/graphql-go-tools/v2/pkg/engine/plan"
 	"github.com/wundergraph/graphql-go-tools/v2/pkg/engine/resolve"
 )
 
@@ -62,11 +68,30 @@ type letter struct {
 	ID   string
 	Sub  bool // subscribe of a subscription operation
 	Raw  string
+	// Undet: a valid subscribe/start whose DOCUMENT has no determinable operation type
+	// (the real ExecutorV2 reports ast.OperationTypeUnknown and its Execute fails)
+	Undet bool
+}
+
+// undeterminable documents (payload member "query" + optional operationName)
+var undetPayloads = []struct{ name, payload string }{
+	{"unparsable document", `{"query":"{ n "}`},
+	{"operationName matches no operation", `{"query":"query A { n } query B { n }","operationName":"C"}`},
+	{"document with only a fragment", `{"query":"fragment F on Query { n }"}`},
+}
+
+func undetLetters(verb string) []letter {
+	var out []letter
+	for _, u := range undetPayloads {
+		out = append(out, letter{Name: verb + "(1," + u.name + ")", Kind: kSubscribe, ID: "1", Undet: true,
+			Raw: `{"id":"1","type":"` + verb + `","payload":` + u.payload + `}`})
+	}
+	return out
 }
 
 func alphabet(p proto) []letter {
 	if p == protoTransport {
-		return []letter{
+		return append([]letter{
 			{Name: "connection_init", Kind: kInit, Raw: `{"type":"connection_init"}`},
 			{Name: "connection_init(rejected)", Kind: kInitRej, Raw: `{"type":"connection_init","payload":{"token":"reject"}}`},
 			{Name: "ping", Kind: kPing, Raw: `{"type":"ping"}`},
@@ -79,9 +104,9 @@ func alphabet(p proto) []letter {
 			{Name: "unknown-type", Kind: kUnknown, Raw: `{"type":"bogus"}`},
 			{Name: "non-JSON", Kind: kNonJSON, Raw: `not json`},
 			{Name: "no-type", Kind: kNoType, Raw: `{"id":"1"}`},
-		}
+		}, undetLetters("subscribe")...)
 	}
-	return []letter{
+	return append([]letter{
 		{Name: "connection_init", Kind: kInit, Raw: `{"type":"connection_init"}`},
 		{Name: "connection_init(rejected)", Kind: kInitRej, Raw: `{"type":"connection_init","payload":{"token":"reject"}}`},
 		{Name: "start(1,query)", Kind: kSubscribe, ID: "1", Raw: `{"id":"1","type":"start","payload":{"query":"query { n }"}}`},
@@ -93,7 +118,7 @@ func alphabet(p proto) []letter {
 		{Name: "unknown-type", Kind: kUnknown, Raw: `{"type":"bogus"}`},
 		{Name: "non-JSON", Kind: kNonJSON, Raw: `not json`},
 		{Name: "no-type", Kind: kNoType, Raw: `{"id":"1"}`},
-	}
+	}, undetLetters("start")...)
 }
 
 // ---- schedule tokens
@@ -385,6 +410,39 @@ type stubExec struct {
 	late      bool   // the harness decided to leave the first Execute blocked
 	announced bool   // x:execute has been written into the word
 	n         int
+	typ       ast.OperationType     // as derived by the real graphql.Request / ExecutorV2
+	real      subscription.Executor // the real ExecutorV2 for documents of undeterminable type (its Execute is used)
+}
+
+// ---- the real ExecutorV2 pool (one per bubble): operation types are derived by the
+// real code (ExecutorV2.OperationType -> graphql.Request.OperationType), and a document
+// whose type is ast.OperationTypeUnknown is executed by the real ExecutorV2 over an
+// execution engine with a static data source (it fails exactly like in production)
+
+var realPool *subscription.ExecutorV2Pool
+
+func setupRealEngine() (cancel func()) {
+	ctx, cancelCtx := context.WithCancel(context.Background())
+	schema, err := graphql.NewSchemaFromString(`type Query { n: Int }`)
+	if err != nil {
+		panic(err)
+	}
+	ds, err := plan.NewDataSourceConfiguration[staticdatasource.Configuration]("static",
+		&staticdatasource.Factory[staticdatasource.Configuration]{},
+		&plan.DataSourceMetadata{RootNodes: []plan.TypeField{{TypeName: "Query", FieldNames: []string{"n"}}}},
+		staticdatasource.Configuration{Data: `{"n": 1}`})
+	if err != nil {
+		panic(err)
+	}
+	conf := engine.NewConfiguration(schema)
+	conf.SetDataSources([]plan.DataSource{ds})
+	conf.SetFieldConfigurations([]plan.FieldConfiguration{{TypeName: "Query", FieldName: "n"}})
+	eng, err := engine.NewExecutionEngine(ctx, abstractlogger.NoopLogger, conf, resolve.ResolverOptions{MaxConcurrency: 8})
+	if err != nil {
+		panic(err)
+	}
+	realPool = subscription.NewExecutorV2Pool(eng, ctx)
+	return func() { cancelCtx(); realPool = nil }
 }
 
 type stubPool struct{ h *harness }
@@ -393,16 +451,21 @@ func (p *stubPool) Get(payload []byte) (subscription.Executor, error) {
 	h := p.h
 	h.mu.Lock()
 	defer h.mu.Unlock()
-	var req struct {
-		Query string `json:"query"`
-	}
-	_ = json.Unmarshal(payload, &req)
 	id := "?"
 	if h.cur != nil {
 		id = h.cur.ID
 	}
-	e := &stubExec{h: h, id: id, sub: strings.HasPrefix(strings.TrimSpace(req.Query), "subscription"),
+	real, err := realPool.Get(payload)
+	if err != nil {
+		h.rec(ev{K: "xget", ID: id, Type: "pool error"})
+		return nil, err
+	}
+	typ := real.OperationType()
+	e := &stubExec{h: h, id: id, sub: typ == ast.OperationTypeSubscription, typ: typ,
 		ctx: context.Background(), gate: make(chan string), resume: make(chan struct{})}
+	if typ == ast.OperationTypeUnknown {
+		e.real = real
+	}
 	h.execs = append(h.execs, e)
 	h.rec(ev{K: "xget", ID: id})
 	return e, nil
@@ -410,14 +473,14 @@ func (p *stubPool) Get(payload []byte) (subscription.Executor, error) {
 
 func (p *stubPool) Put(subscription.Executor) error { return nil }
 
-func (e *stubExec) OperationType() ast.OperationType {
-	if e.sub {
-		return ast.OperationTypeSubscription
+func (e *stubExec) OperationType() ast.OperationType { return e.typ }
+func (e *stubExec) SetContext(c context.Context) {
+	e.ctx = c
+	if e.real != nil {
+		e.real.SetContext(c)
 	}
-	return ast.OperationTypeQuery
 }
-func (e *stubExec) SetContext(c context.Context) { e.ctx = c }
-func (e *stubExec) Reset()                       {}
+func (e *stubExec) Reset() {}
 
 var errStubExecution = errors.New("stub execution failed")
 
@@ -435,6 +498,19 @@ func (e *stubExec) Execute(w resolve.SubscriptionResponseWriter) error {
 		// the harness decides how this execution finishes
 		select {
 		case d := <-e.gate:
+			if d == "real" {
+				// undeterminable document: the real ExecutorV2 decides
+				err := e.real.Execute(w)
+				h.mu.Lock()
+				e.state = stReturned
+				res := "ok"
+				if err != nil {
+					res = "err"
+				}
+				h.rec(ev{K: "xdone", ID: e.id, Type: res})
+				h.mu.Unlock()
+				return err
+			}
 			h.mu.Lock()
 			e.state = stReturned
 			kind := "xdone"
@@ -551,6 +627,11 @@ func (h *harness) reactions(mode string) (executed bool) {
 		}
 		h.mu.Unlock()
 		switch {
+		case atGate != nil && atGate.real != nil:
+			// not a schedule choice: the real executor runs (no err/late variants)
+			h.setCause("execution of an undeterminable document returns")
+			atGate.gate <- "real"
+			h.settle()
 		case atGate != nil:
 			executed = true
 			switch mode {
